@@ -111,10 +111,17 @@ def explore(tier, seed, model_ok=True, focus=False):
     # claimable base rewards of all live positions + boosted pools, principal backed, no counter underflow
     from props import staking_pos_common as spc
     ex3 = spc.explore_staking_pos("C05", tier, seed, spc.monitors_c05, spc.nontrivial_c05, spc.RULE, model_ok, focus, scale=0.5)
-    return spc.merge_exploration(ex, ex3)
+    ex = spc.merge_exploration(ex, ex3)
+    # dex/farm as ONE closed model (Model/FarmFull.v): the boosted payout is computed by the model, the farm's boosted pool is
+    # linked to the weekly pools, no negative counter on any user operation
+    from props import farm_full_common as ffc
+    return ffc.merge_exploration(ex, ffc.explore_farm_full("C05", tier, seed, ffc.monitors_for_c05, ffc.nontrivial_all, ffc.RULE, model_ok, focus, scale=0.5))
 
 
 def replay(data):
+    if data.get("replay", {}).get("system") == "farm-full":
+        from props import farm_full_common as ffc
+        return ffc.replay_farm_full(data, ffc.monitors_for_c05)
     if data.get("replay", {}).get("system") == "stakingpos":
         from props import staking_pos_common as spc
         return spc.replay_staking_pos(data, spc.monitors_c05)
